@@ -62,7 +62,7 @@ INDEX_KINDS = {'default': lambda n: list(range(n)), 'reversed': lambda n: list(r
                'gapped': lambda n: [5, 2, 9, 14][:n], 'labels': lambda n: [f'r{i}' for i in range(n)][::-1]}
 
 
-def real_check(cols, rows, order, cap=100, index='default'):
+def real_check(cols, rows, order, cap=100, index='default', earlier=0):
     """real compute_combined_features on real pandas; returns the list of problems"""
     loader.use_repo_on_syspath()
     import pandas as pd
@@ -72,6 +72,8 @@ def real_check(cols, rows, order, cap=100, index='default'):
     args = types.SimpleNamespace(label_column='label', interaction_order=order, reference_model_JSON='', heuristic='MI-numba-randomized', combination_number_upper_bound=cap)
     PB = types.SimpleNamespace(set_description=lambda *a, **k: None)
     try:
+        for _ in range(earlier):      # earlier mini-batches of the same run: the fair sampler then hands the candidates out in another order
+            cr.compute_combined_features(df.copy(), args, PB)
         out = cr.compute_combined_features(df.copy(), args, PB)
     finally:
         cr.GLOBAL_PRIOR_COMB_COUNTS.clear()
@@ -117,6 +119,8 @@ def run_real(job):
             ctx.assume(v >= 0, v < len(POOL))
         st['lpos'], st['order'] = z3.Int('lpos'), z3.Int('order')
         ctx.assume(st['lpos'] >= 0, st['lpos'] <= NF, st['order'] >= 2, st['order'] <= (2 if NF == 2 else 3))
+        st['hist'] = z3.Int('hist')      # (cap, earlier mini-batches): (100, 0), (2, 1), (3, 2)
+        ctx.assume(st['hist'] >= 0, st['hist'] <= (2 if NF == 4 else 0))
         st['ix'], st['dup'] = z3.Int('ix'), z3.Int('dup')
         ctx.assume(st['ix'] >= 0, st['ix'] < len(KINDS), st['dup'] >= 0, st['dup'] <= 1)
         if not IX:
@@ -136,9 +140,10 @@ def run_real(job):
         if IX:
             index = KINDS[int(SInt(st['ix'], 0, len(KINDS) - 1))]
             rows.insert(0, list(rows[int(SInt(st['dup'], 0, 1))]))      # rows: copy, r0, r1
-        w = {'cond': 'real-frames', 'fn': 'real-frames', 'cols': cols, 'rows': rows, 'order': order, 'index': index}
+        cap, earlier = [(100, 0), (2, 1), (3, 2)][int(SInt(st['hist'], 0, 2))]
+        w = {'cond': 'real-frames', 'fn': 'real-frames', 'cols': cols, 'rows': rows, 'order': order, 'index': index, 'cap': cap, 'earlier': earlier}
         try:
-            probs = real_check(cols, rows, order, index=index)
+            probs = real_check(cols, rows, order, index=index, cap=cap, earlier=earlier)
         except Exception as e:
             probs = [f'{type(e).__name__}: {e}']
         if probs or out.twin:
@@ -220,7 +225,7 @@ def replay(w):
     import outrank.core_ranking as cr
     if w['fn'] == 'real-frames':
         try:
-            probs = real_check(w['cols'], w['rows'], w['order'], index=w.get('index', 'default'))
+            probs = real_check(w['cols'], w['rows'], w['order'], index=w.get('index', 'default'), cap=w.get('cap', 100), earlier=w.get('earlier', 0))
         except Exception as e:
             import traceback
             tb = traceback.extract_tb(e.__traceback__)[-1]
@@ -239,7 +244,7 @@ def replay(w):
             return {'reproduced': False, 'what': f'{n} distinct pairs give {distinct} distinct interaction values'}
         if probs:
             sig = 'C10:tuple-aliasing-by-concatenation' if any('get the same interaction value' in p for p in probs) else 'C10:' + probs[0].split()[0]
-            return {'reproduced': True, 'signature': sig, 'what': f'columns {w["cols"]}, rows {w["rows"]}, order {w["order"]}' + (f', row index {INDEX_KINDS[w["index"]](len(w["rows"]))}' if w.get('index', 'default') != 'default' else '') + ': ' + '; '.join(probs)[:400]}
+            return {'reproduced': True, 'signature': sig, 'what': f'columns {w["cols"]}, rows {w["rows"]}, order {w["order"]}' + (f', row index {INDEX_KINDS[w["index"]](len(w["rows"]))}' if w.get('index', 'default') != 'default' else '') + (f', cap {w["cap"]}, after {w["earlier"]} earlier mini-batch(es)' if w.get('cap', 100) != 100 else '') + ': ' + '; '.join(probs)[:400]}
         return {'reproduced': False, 'what': 'faithful'}
     cols, rows, order, cap = frame_for(w['fn'], w['call'])
     cr.GLOBAL_PRIOR_COMB_COUNTS.clear()
